@@ -691,6 +691,13 @@ def _rho_post_native(a, r):
         exp_d[0] = 0.0
         out["dtau_int (eq. 42)"] = bool(np.allclose(dtau, exp_d, rtol=1e-12, atol=0))
         out["rho = Gamma / Gamma(0)"] = bool(abs(rho[0] - 1.0) < 1e-12)
+        # the error of rho at the chosen window, evaluated independently from the rho the analysis stored:
+        # drho(i)^2 = sum_{k=1}^{w_max-i-1} (rho(i+k) + rho(|i-k|) - 2 rho(i) rho(k))^2 / N
+        W = int(o.e_windowsize["A"])
+        w = len(rho)
+        if 1 <= W < w:
+            tot = sum((rho[W + k] + rho[abs(W - k)] - 2 * rho[W] * rho[k]) ** 2 for k in range(1, w - W))
+            out["drho at the window (eq. E.11 of hep-lat/0306017)"] = bool(np.isclose(o.e_drho["A"][W], np.sqrt(tot / a.e_N), rtol=1e-9, atol=1e-14))
     return out
 
 
